@@ -2,14 +2,14 @@ import FsDb.Model.VFile
 /-
   Executable model of the sequential system:
     internal/usecase/core     (Store, Get, GetFiles, UpdateTx, DeleteTx, DeleteOld, Load)
-    internal/usecase/store    (Set, Get, GetKeys, Delete)
+    internal/usecase/store    (Set, Get, GetKeys, Delete, Guarded)
     internal/usecase/transaction (Begin, Commit, Rollback)
     internal/usecase/cleaner  (DeleteOld, DeleteFiles, deleteFile, DeleteFilesAsync)
     internal/repository/transaction (registry)
     internal/model/sequence   (process-global counter)
-  Names follow the Go functions.  Maps are functions `Key → …` plus the list `dom` of all keys ever
-  written (Go map iteration order is unobservable sequentially: results are sorted or per-key).
-  Core Lean only.
+  Names follow the Go functions.  Go maps are functions (`Key → …`, `TxId → Option …`) plus the list
+  `dom` of all keys ever written (map iteration order is unobservable sequentially: results are
+  sorted or per-key).  Core Lean only.
 -/
 namespace FsDb
 
@@ -52,32 +52,26 @@ inductive Out
 deriving DecidableEq, Repr
 
 structure Sys where
-  counter : Nat := 0                       -- sequence.seq
-  main    : Store := Store.empty           -- txStore[MainTxId]
-  txs     : List (Nat × Store) := []       -- other entries of txStore (created on demand by Store)
-  all     : Store := Store.empty           -- allStore (links)
-  reg     : List TxRec := []               -- registry, insertion order (omap)
-  dom     : List Key := []                 -- every key ever written
-  nextCid : Nat := 1                       -- content ids (uuids in the code; fresh by construction)
-  cfs     : List (Nat × Nat) := []         -- fileContent/ records: content id ↦ content number
-  recs    : List Ver := []                 -- file/ records (Badger), keyed by content id
-  pending : List (List Ver) := []          -- delete jobs handed to the worker pool, not yet run
-  guardWrites : Bool := false              -- true once D1 is repaired (registry check on the write path)
+  counter : Nat := 0                          -- sequence.seq
+  main    : Store := Store.empty              -- txStore[MainTxId]
+  txs     : Nat → Option Store := fun _ => none  -- other entries of txStore (created on demand by Store)
+  all     : Store := Store.empty              -- allStore (links)
+  reg     : List TxRec := []                  -- registry, insertion order (omap)
+  dom     : List Key := []                    -- every key ever written
+  nextCid : Nat := 1                          -- content ids (uuids in the code; fresh by construction)
+  cfs     : List (Nat × Nat) := []            -- fileContent/ records: content id ↦ content number
+  recs    : List Ver := []                    -- file/ records (Badger), keyed by content id
+  pending : List (List Ver) := []             -- delete jobs handed to the worker pool, not yet run
 
 namespace Sys
 
-def next (s : Sys) : Nat × Sys := (s.counter + 1, { s with counter := s.counter + 1 })
-
-def txStore (s : Sys) (t : Nat) : Option Store :=
-  if t = mainTx then some s.main else (s.txs.find? (·.1 = t)).map (·.2)
+def txStore (s : Sys) (t : Nat) : Option Store := if t = mainTx then some s.main else s.txs t
 
 def setTxStore (s : Sys) (t : Nat) (st : Store) : Sys :=
   if t = mainTx then { s with main := st }
-  else if s.txs.any (·.1 = t) then
-    { s with txs := s.txs.map (fun p => if p.1 = t then (t, st) else p) }
-  else { s with txs := s.txs ++ [(t, st)] }
+  else { s with txs := fun t' => if t' = t then some st else s.txs t' }
 
-def dropTxStore (s : Sys) (t : Nat) : Sys := { s with txs := s.txs.filter (·.1 ≠ t) }
+def dropTxStore (s : Sys) (t : Nat) : Sys := { s with txs := fun t' => if t' = t then none else s.txs t' }
 
 def addDom (s : Sys) (k : Key) : Sys := if k ∈ s.dom then s else { s with dom := s.dom ++ [k] }
 
@@ -97,12 +91,18 @@ def newer (f o : Option Ver) : Option Ver :=
 def regGet (s : Sys) (t : Nat) : Option TxRec :=
   if t = mainTx then some ⟨mainTx, .rc, 0⟩ else s.reg.find? (·.id = t)
 
+/-- the transaction's own latest version of `k` (`txStore.Get(txId)` then `File(key).Latest()`) -/
+def ownLatest (s : Sys) (t : Nat) (k : Key) : Option Ver :=
+  match s.txStore t with
+  | some st => latest (st k)
+  | none => none
+
 /-- `core.Get` after the level → filter switch of `store.Get` -/
 def coreGet (s : Sys) (tx : TxRec) (k : Key) : Option Ver :=
   match tx.level with
   | .ru => latest (s.all k)
-  | .rc => newer ((s.txStore tx.id).bind (fun st => latest (st k))) (latest (s.main k))
-  | .rr | .ser => newer ((s.txStore tx.id).bind (fun st => latest (st k))) (lastBefore (s.main k) tx.seq)
+  | .rc => newer (s.ownLatest tx.id k) (latest (s.main k))
+  | .rr | .ser => newer (s.ownLatest tx.id k) (lastBefore (s.main k) tx.seq)
 
 def hasContent (s : Sys) (cid : Nat) : Option Nat := (s.cfs.find? (·.1 = cid)).map (·.2)
 
@@ -125,49 +125,54 @@ def insertKey (k : Key) : List Key → List Key
 
 def sortKeys (l : List Key) : List Key := l.foldr insertKey []
 
-/-- `store.GetKeys`: GetFiles + merge per key is `coreGet` per key; tombstones skipped; sorted -/
+/-- does `store.GetKeys` list `k` for this reader? (GetFiles + merge per key is `coreGet` per key;
+    versions without a fileContent record are skipped) -/
+def listed (s : Sys) (tx : TxRec) (k : Key) : Bool :=
+  match s.coreGet tx k with
+  | none => false
+  | some v => (s.hasContent v.cid).isSome
+
+/-- `store.GetKeys` -/
 def getKeys (s : Sys) (t : Nat) : Out :=
   match s.regGet t with
   | none => .err .txNotFound
-  | some tx =>
-    .keys (sortKeys (s.dom.filter (fun k =>
-      match s.coreGet tx k with
-      | none => false
-      | some v => (s.hasContent v.cid).isSome)))
+  | some tx => .keys (sortKeys (s.dom.filter (s.listed tx)))
 
 /-- `core.Store`: seq := Next(); Badger set; push to the tx list and the all-store -/
-def coreStore (s : Sys) (t : Nat) (k : Key) (cid : Nat) : Sys :=
-  let (sq, s) := s.next
-  let v : Ver := ⟨k, t, cid, sq⟩
+def coreStore (s : Sys) (t : Nat) (k : Key) (cid : Nat) (val : Option Nat) : Sys :=
+  let sq := s.counter + 1
+  let v : Ver := ⟨k, t, cid, sq, val⟩
   let st := (s.txStore t).getD Store.empty
+  let s := { s with counter := sq }
   let s := s.setTxStore t (upd st k (st k ++ [v]))
   let s := { s with all := upd s.all k (s.all k ++ [v]), recs := s.recs ++ [v] }
   s.addDom k
 
-/-- `store.Set` (content stored first, then the fileContent record, then the version) -/
+/-- `store.Guarded.Set` + `store.Set` (registry check; content stored first, then the fileContent
+    record, then the version) -/
 def set (s : Sys) (t : Nat) (k : Key) (content : Nat) : Sys × Out :=
-  if s.guardWrites ∧ (s.regGet t).isNone then (s, .err .txNotFound)   -- store.Guarded (tx_guard.go)
+  if (s.regGet t).isNone then (s, .err .txNotFound)   -- store.Guarded (tx_guard.go)
   else if k = "" then (s, .err .emptyKey)
   else
     let cid := s.nextCid
     let s := { s with nextCid := cid + 1, cfs := s.cfs ++ [(cid, content)] }
-    (s.coreStore t k cid, .ok)
+    (s.coreStore t k cid (some content), .ok)
 
-/-- `store.Delete`: a version with a fresh content id and no fileContent record (tombstone) -/
+/-- `store.Guarded.Delete` + `store.Delete`: a version with a fresh content id and no fileContent
+    record (tombstone) -/
 def del (s : Sys) (t : Nat) (k : Key) : Sys × Out :=
-  if s.guardWrites ∧ (s.regGet t).isNone then (s, .err .txNotFound)
+  if (s.regGet t).isNone then (s, .err .txNotFound)
   else
     let cid := s.nextCid
     let s := { s with nextCid := cid + 1 }
-    (s.coreStore t k cid, .ok)
+    (s.coreStore t k cid none, .ok)
 
 /-- `transaction.Begin` -/
 def begin (s : Sys) (t : Nat) (lvl : Level) : Sys × Out :=
   if t = mainTx ∨ s.reg.any (·.id = t) then (s, .bad)
-  else
-    let (sq, s) := s.next
-    ({ s with reg := s.reg ++ [⟨t, lvl, sq⟩] }, .ok)
+  else ({ s with counter := s.counter + 1, reg := s.reg ++ [⟨t, lvl, s.counter + 1⟩] }, .ok)
 
+/-- unlink from the all-store (links are identified by content id) -/
 def removeLinks (all : Store) (vs : List Ver) : Store :=
   fun k => (all k).filter (fun l => ¬ vs.any (fun v => v.cid = l.cid))
 
@@ -177,7 +182,7 @@ def removeLinks (all : Store) (vs : List Ver) : Store :=
     ones go to the delete list; on a conflict everything goes to the delete list and no number is
     drawn.  Old links leave the all-store in both outcomes.  Returns the delete list. -/
 def updateTx (s : Sys) (tx : TxRec) : Sys × List Ver × Bool :=
-  match (s.txs.find? (·.1 = tx.id)).map (·.2) with
+  match s.txs tx.id with
   | none => (s, [], true)
   | some st =>
     let s := s.dropTxStore tx.id
@@ -192,12 +197,12 @@ def updateTx (s : Sys) (tx : TxRec) : Sys × List Ver × Bool :=
     if conflict then (s, olds ++ lasts, false)
     else if lasts.isEmpty then (s, olds, true)
     else
-      let (sq, s) := s.next
+      let sq := s.counter + 1
       let pub := lasts.map (fun v => ({ v with tx := mainTx, seq := sq } : Ver))
       let main' : Store := fun k => s.main k ++ pub.filter (·.key = k)
       let all' : Store := fun k => s.all k ++ pub.filter (·.key = k)
       let recs' := s.recs.map (fun r => match pub.find? (·.cid = r.cid) with | some p => p | none => r)
-      ({ s with main := main', all := all', recs := recs' }, olds, true)
+      ({ s with counter := sq, main := main', all := all', recs := recs' }, olds, true)
 
 /-- `transaction.Commit` -/
 def commit (s : Sys) (t : Nat) : Sys × Out :=
@@ -206,9 +211,9 @@ def commit (s : Sys) (t : Nat) : Sys × Out :=
   | none => (s, .err .txNotFound)
   | some tx =>
     let s := { s with reg := s.reg.filter (·.id ≠ t) }
-    let (s, dels, ok) := s.updateTx tx
-    let s := if dels.isEmpty then s else { s with pending := s.pending ++ [dels] }
-    (s, if ok then .ok else .err .txSerialization)
+    let r := s.updateTx tx
+    let s := if r.2.1.isEmpty then r.1 else { r.1 with pending := r.1.pending ++ [r.2.1] }
+    (s, if r.2.2 then .ok else .err .txSerialization)
 
 /-- `core.DeleteTx` + `transaction.Rollback` (unknown id ⇒ ok, nothing happens) -/
 def rollback (s : Sys) (t : Nat) : Sys × Out :=
@@ -217,7 +222,7 @@ def rollback (s : Sys) (t : Nat) : Sys × Out :=
   | none => (s, .ok)
   | some _ =>
     let s := { s with reg := s.reg.filter (·.id ≠ t) }
-    match (s.txs.find? (·.1 = t)).map (·.2) with
+    match s.txs t with
     | none => (s, .ok)
     | some st =>
       let s := s.dropTxStore t
@@ -235,14 +240,14 @@ def deleteFiles (s : Sys) (vs : List Ver) : Sys :=
 /-- `cleaner.DeleteOld`: horizon = first registered open transaction's seq, else a fresh `Next`;
     per key `collect`; synchronous `DeleteFiles`. -/
 def gc (s : Sys) : Sys × Out :=
-  let (hz, s) := match s.reg.head? with
-    | some tx => (tx.seq, s)
-    | none => s.next
-  let res := s.dom.map (fun k => (k, collect (s.main k) hz))
-  let dels := res.flatMap (fun r => r.2.1)
-  let main' : Store := fun k => match res.find? (·.1 = k) with
-    | some r => r.2.2
-    | none => s.main k
+  let hz := match s.reg.head? with
+    | some tx => tx.seq
+    | none => s.counter + 1
+  let s := match s.reg.head? with
+    | some _ => s
+    | none => { s with counter := s.counter + 1 }
+  let dels := s.dom.flatMap (fun k => (collect (s.main k) hz).1)
+  let main' : Store := fun k => (collect (s.main k) hz).2
   let s := { s with main := main', all := removeLinks s.all dels }
   (s.deleteFiles dels, .ok)
 
@@ -253,22 +258,20 @@ def drain (s : Sys) : Sys × Out :=
 
 /-- `Close` + `Open`: in-memory state is rebuilt by `core.Load` from the Badger records:
     per key the main record with the highest seq survives, everything else is scheduled for
-    deletion; `sequence.Set(maxSeq)` is `CAS(0 → max)`: the process counter is raised only if it
-    is still 0 (same process ⇒ unchanged). -/
+    deletion; the process counter is raised to the highest surviving seq (`sequence.Set`). -/
 def reopen (s : Sys) (freshProcess : Bool) : Sys × Out :=
   let mains := s.recs.filter (·.tx = mainTx)
   let winner (k : Key) : Option Ver :=
     (mains.filter (·.key = k)).foldl (fun acc v => match acc with
       | none => some v
       | some a => if v.seq < a.seq then some a else some v) none
-  let keys := s.dom
-  let keep := keys.filterMap winner
+  let keep := s.dom.filterMap winner
   let dels := s.recs.filter (fun r => ¬ keep.any (fun w => w.cid = r.cid))
   let maxSeq := keep.foldl (fun m v => max m v.seq) 1
   let counter0 := if freshProcess then 0 else s.counter
   let counter := if counter0 = 0 then maxSeq else counter0
   let st : Store := fun k => (winner k).toList
-  let s' : Sys := { s with counter := counter, main := st, all := st, txs := [], reg := [],
+  let s' : Sys := { s with counter := counter, main := st, all := st, txs := fun _ => none, reg := [],
                            pending := if dels.isEmpty then [] else [dels] }
   (s', .ok)
 
@@ -309,8 +312,8 @@ def Sys.step (s : Sys) : Op → Sys × Out
 def Sys.run (s : Sys) : List Op → Sys × List Out
   | [] => (s, [])
   | op :: ops =>
-    let (s1, o) := s.step op
-    let (s2, os) := s1.run ops
-    (s2, o :: os)
+    let r := s.step op
+    let r2 := r.1.run ops
+    (r2.1, r.2 :: r2.2)
 
 end FsDb
